@@ -81,6 +81,9 @@ def main():
     # ---- 5. buffers ----------------------------------------------------------------------------
     if R.stage("buffers"):
         c19_buf.run(R, thorough)
+    # ---- 5b. ...ArrayFromBuffer x sources strided along their first dimension only ------------------
+    if R.stage("buffer-rows"):
+        c19_buf.run_rows(R, thorough)
 
     return R.finish()
 
